@@ -89,7 +89,7 @@ fn oracle_roundtrip(ctx: &Ctx, seed: u64, from: u64, to: u64, with_witnesses: bo
 
 /// deterministic byte-level witnesses of the read direction: (label, signature on failure, bytes, expected)
 fn parse_witnesses() -> Vec<(&'static str, &'static str, Vec<u8>, String)> {
-    let img = |w: u64, h: u64, b: u8| format!("II:{}", (w << 16) | (h << 8) | b as u64);
+    let img = |w: u8, h: u8, b: u8| format!("II:{}", planted_id(w, h, b));
     vec![
         ("D21 sh yields Op::Shade", "table:sh", b"/Sh1 sh\n".to_vec(), format!("sh:{}", hex(b"Sh1"))),
         ("Tr 6 and 7 are valid modes", "table:Tr", b"6 Tr 7 Tr\n".to_vec(), "Tr:6;Tr:7".to_string()),
